@@ -47,7 +47,15 @@ func runSolverCtx(parent context.Context, s solverSpec, file string, timeoutS in
 	_ = cmd.Run()
 	ms := time.Since(t0).Milliseconds()
 	text := out.String()
-	first := strings.TrimSpace(strings.SplitN(text, "\n", 2)[0])
+	first := ""
+	for _, ln := range strings.Split(text, "\n") {
+		ln = strings.TrimSpace(ln)
+		if ln == "" || strings.HasPrefix(ln, "WARNING") || strings.HasPrefix(ln, ";") {
+			continue
+		}
+		first = ln
+		break
+	}
 	v := "unknown"
 	switch {
 	case first == "unsat":
